@@ -109,6 +109,26 @@ CHECKS = {
              "(Bg, halfBg, maskMod, kpl, h[], extracted n), and the noise levels as exact IEEE mantissa/exponent plus their decimal rendering -- are compared by TLC with the documented records, and the noise formulas are re-evaluated on the returned values.",
         note="The 80-bit set is documented only in the source comments. The noise formula is the standard average-case TFHE variance; the property's 'bound' constants are taken from the property text.",
         design="§6 C19"),
+    "C05": dict(
+        category="model_checking",
+        technique="TLA+ spec Serial (the export grammar at the granularity of transport calls) model-checked by TLC; recorded export/import/re-export round trips of the real library "
+                  "validated call by call by TLC (Trace_Serial), functional equivalence of re-imported keys via the Trace_Eval memo",
+        text="Serial describes, for each of the 15 exportable object types, the exact sequence of calls the writers make on the transport (text lines in std::map order, 4-byte tags, raw arrays, the variance stored once). "
+             "The real API is driven through call-logging sinks (a streambuf for C++ streams, fopencookie for FILE): every type, both transports, parameter values incl. the default sets' 2^-15, 2^-25, 2.44e-5, 7.18e-9 and a sweep 1e-12..0.5, "
+             "extreme coefficient contents, objects alone and 2-3 back to back in one stream. TLC validates that each call is the next call of Serial!Export, that every property line parses back to exactly the object's field (reals by IEEE mantissa/exponent), "
+             "that import consumes exactly the object's bytes with a good stream and yields equal fields and contents (key rows with the common maximum variance, also when the maximum sits on a digit-0 row), and that re-export is byte-identical. "
+             "A default-parameter secret key set is exported and re-imported (and its cloud part separately) and gates/decryptions under original and re-imported keys must agree bit for bit.",
+        note="Contents are compared through 62-bit hashes. Defect D1 (reals printed with %.8lf) was found by this check and repaired (fix: commit in /repo). Default-size key sets are part of the call-level trace in the thorough tier only.",
+        design="§6 C05"),
+    "C17": dict(
+        category="model_checking",
+        technique="Serial!ExpCloud / ExpSecret model-checked by TLC (strict prefix, no secret section, size formula); real cloud and secret exports validated call by call (Trace_Serial) and by a content report (Table_C17)",
+        text="TLC checks over a grid of parameters that the cloud export is a strict prefix of the secret export, contains no secret-key section and has the binary size given by the formula. On the real library, key sets generated by the real generator "
+             "(small custom sets with n >= 32 and the default sets) are exported on both transports: the call sequence must be exactly Serial!ExpCloud (nothing appended or interleaved), the binary size must equal the formula, the cloud bytes must be a byte prefix of the secret bytes, "
+             "the secret export must add exactly the LWE-key and TGSW-key sections, the LWE key bits and ring key coefficients must not occur in the cloud bytes in the int32 encoding the library uses nor byte-per-bit / bit-packed (a control search finds them in the secret export), "
+             "and importing the cloud bytes consumes exactly them and yields a key that has both evaluation keys.",
+        note="'Contains no secret' is decided for the encodings searched; an arbitrary transformation of the key hidden in the mask coefficients is outside any byte search (the call-level grammar leaves no room for extra bytes, which bounds this).",
+        design="§6 C17"),
 }
 
 NOT_YET = {}
